@@ -11,7 +11,13 @@ Extracted (every run, from /repo's working tree and the vendored jsonwebtoken so
     reject_tokens_expiring_in_less_than, iss, sub, aud) and the `Algorithm` variant names;
   * the spec claims jsonwebtoken's `validate` knows how to require (the arms of its `match required_claim`);
   * snap-tokens v0/v1 `SnapTokenClaims`: field names and Rust types (what serde demands) and the
-    `required_claims()` list of each version.
+    `required_claims()` list of each version;
+  * the granted lifetime: `Token::exp_time` of both claims versions (`UNIX_EPOCH + Duration::from_secs(self.exp)`
+    -> nanoseconds per unit of `exp`) and, from snap-control/src/api/crpc.rs, the statements of
+    `register_snaptun_identity_handler` that compute `lifetime` (`exp_time().duration_since(SystemTime::now())`,
+    refused with InvalidArgument when negative, before anything is registered), that it is handed unchanged
+    to the one `identity_registry.register(..)` call, and that the registration key is `snap_token.jti()`.
+    Any other shape of those statements is an ExtractError.
 """
 import re, os, glob
 
@@ -253,6 +259,39 @@ def register(api):
         if not re.search(r'value\.get\("ver"\)', lib):
             raise E('AnyClaims::deserialize: value.get("ver") not found')
 
+        # ---- granted lifetime ------------------------------------------------------------------------
+        def exp_unit(src, ver):
+            imp = fn_body(src, r"impl\s+Token\s+for\s+SnapTokenClaims\s*\{", f"v{ver} impl Token")
+            b = " ".join(fn_body(imp, r"fn\s+exp_time\s*\(\s*&self\s*\)\s*->\s*SystemTime\s*\{", f"v{ver} exp_time").split())
+            m = re.fullmatch(r"(?:SystemTime::)?UNIX_EPOCH \+ (?:std::time::)?Duration::from_(secs|millis|micros|nanos)\(self\.exp\)", b)
+            if not m:
+                raise E(f"v{ver} SnapTokenClaims::exp_time is not `UNIX_EPOCH + Duration::from_<unit>(self.exp)`: {b!r}")
+            return {"secs": 10**9, "millis": 10**6, "micros": 10**3, "nanos": 1}[m.group(1)]
+        u0, u1 = exp_unit(v0, 0), exp_unit(v1, 1)
+        if u0 != u1:
+            raise E(f"v0 and v1 exp_time use different units ({u0} / {u1} ns): the model has one")
+        b = " ".join(fn_body(lib, r"impl\s+Token\s+for\s+AnyClaims\s*\{", "impl Token for AnyClaims").split())
+        if not re.search(r"fn exp_time\(&self\) -> SystemTime \{ match self \{ Self::V1\(c\) => c\.exp_time\(\), Self::V0\(c\) => c\.exp_time\(\), \} \}", b):
+            raise E("AnyClaims::exp_time does not delegate to the versions' exp_time")
+        rel_crpc = "crates/snap/snap-control/src/api/crpc.rs"
+        crpc = api.strip_comments(api.read(rel_crpc))
+        m = re.search(r"\)\s*->\s*Result<ConnectRpc<RegisterSnapTunIdentityResponse>, CrpcError>\s*\{", crpc)
+        if not m:
+            raise E("register_snaptun_identity_handler: signature changed")
+        hb = " ".join(fn_body(crpc[m.start():], r"\)\s*->\s*Result<ConnectRpc<RegisterSnapTunIdentityResponse>, CrpcError>\s*\{", "register_snaptun_identity_handler body").split())
+        if not hb.startswith("let now = SystemTime::now(); let lifetime = snap_token.0.exp_time().duration_since(now).map_err(|_| { CrpcError::new( CrpcErrorCode::InvalidArgument, \"expiration time is in the past\".to_string(), ) })?;"):
+            raise E("register_snaptun_identity_handler: does not start with `let now = SystemTime::now(); let lifetime = snap_token.0.exp_time().duration_since(now).map_err(.. InvalidArgument ..)?;`")
+        if len(re.findall(r"\blifetime\b", hb)) != 2 or len(re.findall(r"\bnow\b", hb)) != 4:
+            raise E("register_snaptun_identity_handler: `lifetime` / `now` are used in other places than their definition and the register call")
+        regs = re.findall(r"\.register\(([^()]*(?:\([^()]*\)[^()]*)*)\)", hb)
+        if len(regs) != 1:
+            raise E(f"register_snaptun_identity_handler: expected exactly one .register(..) call, found {len(regs)}")
+        args = [a.strip() for a in regs[0].split(",") if a.strip()]
+        if args != ["Instant::now()", "&key", "*initiator_identity.as_bytes()", "psk_share", "lifetime", "&snap_token"]:
+            raise E(f"register_snaptun_identity_handler: register arguments changed: {args}")
+        if "let key = snap_token.jti();" not in hb or len(re.findall(r"\bkey\b", hb)) != 3:
+            raise E("register_snaptun_identity_handler: the registration key is not `snap_token.jti()`")
+
         def opt_list(x):
             return "none" if x is None else "some " + lean_list(x)
 
@@ -281,12 +320,21 @@ def register(api):
         body += f"def v1Fields : List (String × FieldTy) := {lean_list(lf1, pair)}\n"
         body += f"def v0Required : List String := {lean_list(r0)}\n"
         body += f"def v1Required : List String := {lean_list(r1)}\n"
+        body += "-- granted lifetime: Token::exp_time = UNIX_EPOCH + exp * expUnitNs ns (v0.rs, v1.rs);\n"
+        body += "-- register_snaptun_identity_handler (crpc.rs): lifetime = exp_time().duration_since(SystemTime::now()), refused when\n"
+        body += "-- negative, handed unchanged to the single identity_registry.register(Instant::now(), &jti, identity, psk, lifetime, claims)\n"
+        body += f"def expUnitNs : Nat := {u0}\n"
+        body += "def handlerLifetimeIsExpMinusNow : Bool := true\n"
+        body += "def handlerRefusesPastExpiryBeforeRegister : Bool := true\n"
+        body += "def handlerRegisterCalls : Nat := 1\n"
+        body += "def handlerRegisterKeyIsJti : Bool := true\n"
         body += "end ScionVerif.Generated.Token\n"
         vals = {"jsonwebtoken": jwt_ver, "algorithms": cfg["algorithms"], "required_spec_claims": cfg["required"],
                 "leeway": cfg["leeway"], "reject_tokens_expiring_in_less_than": cfg["reject_tokens_expiring_in_less_than"],
                 "validate_exp": cfg["validate_exp"], "validate_nbf": cfg["validate_nbf"], "validate_aud": cfg["validate_aud"],
                 "aud": cfg["aud"], "iss": cfg["iss"], "sub": cfg["sub"], "known_algorithms": algs,
                 "checkable_spec_claims": checkable, "v1_tag": v1_tag, "v0_fields": lf0, "v1_fields": lf1,
-                "v0_required": r0, "v1_required": r1, "v1_flatten_private_claims": flat1}
-        srcs = [rel_tv, rel_lib, rel_v0, rel_v1, f"jsonwebtoken-{jwt_ver}/src/validation.rs", f"jsonwebtoken-{jwt_ver}/src/algorithms.rs"]
+                "v0_required": r0, "v1_required": r1, "v1_flatten_private_claims": flat1, "exp_unit_ns": u0,
+                "handler_lifetime": "exp_time().duration_since(SystemTime::now())", "handler_register_calls": 1, "handler_key": "jti"}
+        srcs = [rel_tv, rel_lib, rel_v0, rel_v1, rel_crpc, f"jsonwebtoken-{jwt_ver}/src/validation.rs", f"jsonwebtoken-{jwt_ver}/src/algorithms.rs"]
         return api.write_lean("Token", body, srcs), vals
